@@ -9,6 +9,8 @@ op lines (space separated; byte strings hex, empty = `-`, empty list = `_`):
   serve <id> <vend> <parses> <doc>  JWKS endpoint now serves document <id>: first JSON value ends at byte
                                 <vend>, keyfunc.NewJWKSetJSON ok = <parses>; id 0 = connection dropped   -> ok
   refresh                       RefreshJWTJWKS                                                          -> ok
+  racerefresh <id> <vend> <parses> <doc> <auth columns>   Authenticate whose JWKS download is held at the
+                                server while the endpoint switches to <doc> and RefreshJWTJWKS is called -> as auth
   auth <action> <path> <query> <proto> <user> <pass> <token> <ask> <ip> <ipStr> <ua> <id> <pq> <re> <status> <toks>
                                 -> (ok <user> | err <ask>) post=<n|f,f,…> ks=<due>:<loaded|->
 excl   = action:path+…
@@ -118,22 +120,16 @@ structure D where
 
 def limit : Nat := 128 * 1024
 
-def step (d : D) (op impl : String) : D × DrvOut :=
-  match words op with
-  | ["reset", m, excl, inq, _, _, _] =>
-    match (if m == "h" then some Method.http else if m == "j" then some Method.jwt else none),
-          parseList "+" (parsePair ":") excl, parseBit inq with
-    | some m, some excl, some inq => ({ cfg := ⟨m, excl, inq⟩ }, { model := "ok" })
-    | _, _, _ => (d, { model := "bad-op" })
-  | ["serve", id, vend, parses, _] =>
-    match id.toNat?, vend.toNat?, parseBit parses with
-    | some id, some vend, some parses =>
-      -- customLimitReader: the decoder may consume at most 128 KiB to complete the first JSON value
-      let s := if id == 0 ∨ vend > limit ∨ !parses then Served.broken else Served.keys id
-      ({ d with served := s }, { model := "ok" })
-    | _, _, _ => (d, { model := "bad-op" })
-  | ["refresh"] => ({ d with st := refresh d.st }, { model := "ok" })
-  | ["auth", action, path, query, proto, user, pass, token, ask, _ip, ipStr, ua, id, pq, re, status, toks] =>
+def parseServed (id vend parses : String) : Option Served :=
+  match id.toNat?, vend.toNat?, parseBit parses with
+  | some id, some vend, some parses =>
+    -- customLimitReader: the decoder may consume at most 128 KiB to complete the first JSON value
+    some (if id == 0 ∨ vend > limit ∨ !parses then Served.broken else Served.keys id)
+  | _, _, _ => none
+
+/-- one Authenticate call; `after` = what happens (atomically, afterwards) before the state is observed -/
+def authStep (d : D) (after : D → D) (impl : String) : List String → D × DrvOut
+  | [action, path, query, proto, user, pass, token, ask, _ip, ipStr, ua, id, pq, re, status, toks] =>
     let parsed := do
       let id ← if id == "n" then some none else (hx id).map some
       let action ← hx action
@@ -177,7 +173,7 @@ def step (d : D) (op impl : String) : D × DrvOut :=
           (match toks.find? (·.tok == t), keys with
            | some e, some k => e.verdicts.any (·.1 == k) && hasRe (permsOfClaim e.claim)
            | _, _ => false))
-      if !complete then (d, { model := "oracle-missing" })
+      if !complete then (after d, { model := "oracle-missing" })
       else
         let (st', res) := authenticate d.cfg env d.st r
         let spec := match parseRes impl with
@@ -185,7 +181,29 @@ def step (d : D) (op impl : String) : D × DrvOut :=
             | none => "ok"
             | some m => "FAIL " ++ m)
           | none => "FAIL unparsable implementation answer: " ++ impl
-        ({ d with st := st' }, { model := fmtRes res st', spec })
+        let d' := after { d with st := st' }
+        (d', { model := fmtRes res d'.st, spec })
+  | _ => (d, { model := "bad-op" })
+
+def step (d : D) (op impl : String) : D × DrvOut :=
+  match words op with
+  | ["reset", m, excl, inq, _, _, _] =>
+    match (if m == "h" then some Method.http else if m == "j" then some Method.jwt else none),
+          parseList "+" (parsePair ":") excl, parseBit inq with
+    | some m, some excl, some inq => ({ cfg := ⟨m, excl, inq⟩ }, { model := "ok" })
+    | _, _, _ => (d, { model := "bad-op" })
+  | ["serve", id, vend, parses, _] =>
+    match parseServed id vend parses with
+    | some sv => ({ d with served := sv }, { model := "ok" })
+    | none => (d, { model := "bad-op" })
+  | ["refresh"] => ({ d with st := refresh d.st }, { model := "ok" })
+  | "auth" :: cols => authStep d id impl cols
+  -- a JWKS download in flight while the endpoint changes and RefreshJWTJWKS is called: pullJWTJWKS holds the
+  -- Manager mutex for the whole download, so this linearises as  authenticate ; serve ; refresh
+  | "racerefresh" :: id :: vend :: parses :: _ :: cols =>
+    match parseServed id vend parses with
+    | some sv => authStep d (fun d => { d with served := sv, st := refresh d.st }) impl cols
+    | none => (d, { model := "bad-op" })
   | _ => (d, { model := "bad-op" })
 
 def main (args : List String) : IO UInt32 := runDriver args ({} : D) step
